@@ -5,7 +5,7 @@
    Model: model/Cluster.v (transition system at the code's await points), restricted scheduler
    model/ClusterSys.v (seq_step); acceptor spec/StreamSpec.v; classes spec/ClusterClass.v. *)
 From W Require Import model.Base model.Map model.Bincode model.Meta model.Cluster model.ClusterSys
-  spec.StreamSpec spec.ClusterClass proofs.ClusterWit.
+  spec.StreamSpec spec.ClusterClass proofs.ClusterWit proofs.ClusterSeqN2.
 
 (* the property at full strength: every schedule of the cluster transition system *)
 Definition C22_full : Prop := forall cfg sched, c22_ok (cl_trace cfg sched) = true.
@@ -43,6 +43,26 @@ Theorem c22_single_node_sequential_partial : forall cfg sched,
   cf_nodes cfg = 1 -> cf_lead cfg = 1 -> 1 <= cf_thr cfg -> c22_ok (seq_trace cfg sched) = true.
 Proof. exact seq_accepted. Qed.
 
+(* the same for ANY configuration — any number of nodes, any placement of the topic leader, any
+   threshold, any clients: ALL schedules of the sequential system (operations never overlap,
+   every node applies a proposed command before the next event, no restart) satisfy all four
+   clauses.  No hypothesis on cfg is needed: an operation sent to a node that does not exist,
+   or routed to a leader that is not a node, is answered with an error and writes nothing. *)
+Theorem c22_sequential_any_nodes_partial : forall cfg sched, c22_ok (seq_trace cfg sched) = true.
+Proof. exact seq_accepted_any. Qed.
+
+(* what is still open on the positive side: the concurrent system outside the known classes
+   (supported only by search: no unclassified failure in > 14 000 model runs) *)
+Definition C22_outside_known_open : Prop :=
+  forall cfg sched, c22_known cfg sched = false -> c22_ok (cl_trace cfg sched) = true.
+
+(* non-vacuity for three nodes: topic led by node 2, threshold 2, PUTs and GETs sent to all three
+   nodes (forwarded appends, reads and proposals), two rollovers (leader 2 -> 3 -> 1), the five
+   payloads returned in acknowledgement order, then EMPTY; 5 engine writes *)
+Example c22_witness_sequential_three_nodes :
+  nv3_summary = (0, [CRVal (0, 0); CRVal (0, 1); CRVal (0, 2); CRVal (0, 3); CRVal (0, 4); CREmpty], 2%nat, 5%nat).
+Proof. vm_compute. reflexivity. Qed.
+
 (* non-vacuity: the sequential system really delivers (5 PUTs, threshold 2, two rollovers,
    5 values in order, then EMPTY) *)
 Example c22_witness_sequential :
@@ -65,6 +85,7 @@ Check c22_double_rollover_accepted : exists cfg sched,
 Check c22_refuted_under_fence : exists cfg sched, c22_verdict (fenced_trace cfg sched) = 4.
 Check c22_single_node_sequential_partial : forall cfg sched,
   cf_nodes cfg = 1 -> cf_lead cfg = 1 -> 1 <= cf_thr cfg -> c22_ok (seq_trace cfg sched) = true.
+Check c22_sequential_any_nodes_partial : forall cfg sched, c22_ok (seq_trace cfg sched) = true.
 Print Assumptions c22_refuted_ack_after_seal_count.
 Print Assumptions c22_refuted_reader_lag.
 Print Assumptions c22_refuted_offsets_lost_on_restart.
@@ -72,3 +93,4 @@ Print Assumptions c22_full_refuted.
 Print Assumptions c22_double_rollover_accepted.
 Print Assumptions c22_refuted_under_fence.
 Print Assumptions c22_single_node_sequential_partial.
+Print Assumptions c22_sequential_any_nodes_partial.
